@@ -1,8 +1,8 @@
 """C19 - every script URL a render emits is served with that component's code.
 
 Specification: specs/ScriptEndpoint.tla (cache of must-serve entries, class versions, held
-pre-rendered pages; actions Render / Prerender / Finish / ClearCache / Redefine / Get; the set
-`Adm` of answers the property admits for any request).
+pre-rendered pages, the active URL configuration; actions Render / Prerender / Finish / ClearCache /
+Redefine / SetUrl / Get; the set `Adm` / `AdmAt` of answers the property admits for any request).
 
 spec -> code: TLC (specs/MC_C19.tla) enumerates *every history* of at most 5 actions over 3
               generated classes (js only / css only / both / neither / with JS+CSS variables) and
@@ -12,7 +12,8 @@ spec -> code: TLC (specs/MC_C19.tla) enumerates *every history* of at most 5 act
               render_to_response, Template + render_dependencies), real
               get_component_media_cache().clear(), URLs extracted from the produced HTML (the
               `<script type="application/json" data-djc>` block, base64 fields), fetched with
-              django.test.Client through ROOT_URLCONF=django_components.urls.
+              django.test.Client under the URL configuration that is active (by default
+              ROOT_URLCONF=django_components.urls, script prefix "/").
               A second export covers the request alphabet (unknown hashes, invalid kinds and
               input hashes, POST/PUT/DELETE/HEAD), extensions cover pre-rendered HTML finished
               later (render_dependencies=False ... render_dependencies()) and classes redefined
